@@ -258,6 +258,7 @@ func simCampaign(prop string, enable func(*Monitors), clients bool) vk.Campaign 
 			profile := Profiles[rng.Weighted([]int{3, 5, 4, 3, 1})]
 			cfg := GenConfig(rng, profile)
 			cfg.Clients = clients
+			cfg.WideSeq = clients && i%2 == 1
 			c, err := NewCluster(cfg, rng, r)
 			if err != nil {
 				r.Inconclusive("cannot build cluster: " + err.Error())
